@@ -117,8 +117,10 @@ SPECS = {
         title='never at rest with nothing in flight; termination under fairness; no spinning'),
     'C17': dict(
         invs=['A_C17_Retained', 'A_C17_Prompt', 'A_C17_Captured', 'A_C17_EmptyAtReturn'], props=['A_C17_OnlyNew'],
-        fam=dict(quick=dict(n=3, ntypes=1, maxpars=(UNL,), maxws=(1, 2), backends=('fork', 'spawn', 'serial'),
-                            cached='none', reqs='subsets', fails='singles', cofs=(True,)),
+        fam=dict(quick=[dict(n=3, ntypes=1, maxpars=(UNL,), maxws=(1, 2), backends=('fork', 'spawn', 'serial'),
+                             cached='none', reqs='subsets', fails='singles', cofs=(True,)),
+                        dict(n=3, ntypes=1, maxpars=(UNL,), maxws=(1, 2), backends=('fork', 'serial'),
+                             cached='all-subsets', reqs='rich', cofs=(True,), sample=600)],
                  thorough=dict(n=3, ntypes=1, maxpars=(UNL,), maxws=(1, 2, 3), backends=('fork', 'spawn', 'serial'),
                                cached='all-subsets', reqs='subsets', fails='all-subsets', cofs=(True,), sample=40000)),
         title='results held exactly while a direct dependent still needs them; nothing held at return'),
@@ -131,7 +133,14 @@ def beh_logs(job, rnd):
     job['beh'] = {str(t): rnd.choice(LOG_BEH) for t in range(1, job['cfg']['n'] + 1)}
 
 
+def empty_ctx(job, rnd):
+    # a per-parameter subset filter may select nothing at all: half of the runs make the type-2 tasks' filters return {}
+    if rnd.random() < 0.5:
+        job['empty_ctx'] = [t for t in range(1, job['cfg']['n'] + 1) if job['cfg']['typ'][t - 1] == 2]
+
+
 def ctx_pair(job, rnd):
+    empty_ctx(job, rnd)
     job['ctx_pair'] = True
     job['actions'] = [a for a in job['actions'] if a[0] == 'rel']    # the two runs are compared entry by entry
 
@@ -147,7 +156,7 @@ SPECS['C14'] = dict(
                 thorough=dict(serial_cfgs=60, virt_cfgs=120, virt_lines=400, double_cfgs=40, double_lines=200)),
     title='interrupt at every coordinator location of the model and every line boundary of the code')
 SPECS['C16'] = dict(
-    invs=['A_C04_Workers'], props=[], real_jobfn=ctx_pair, real_scale=2,
+    invs=['A_C04_Workers'], props=[], jobfn=empty_ctx, real_jobfn=ctx_pair, real_scale=2,
     fam=dict(quick=dict(n=3, ntypes=3, maxpars=(UNL,), maxws=(1, 2, 16), backends=('fork', 'spawn', 'serial'),
                         cached='none', reqs='roots', sample=600),
              thorough=dict(n=4, ntypes=3, maxpars=(UNL, 2), maxws=(1, 2, 4, 16), backends=('fork', 'spawn', 'serial'),
